@@ -368,3 +368,15 @@ Proof.
     + destruct (Sp SVol I) as (_ & _ & H3). exact H3.
     + intros c Hc. destruct (Sp c Hc) as (_ & H2 & _). exact H2.
 Defined.
+
+(* tank-backed receivers answer wet offers with wet remainders *)
+Lemma tank_wet_replies : forall s v, okS _ _ tank_contract s -> wet v -> forall k,
+  vol (snd (p_push_set nbport s v)) <= 0 -> get (adds (snd (p_push_set nbport s v))) k == 0.
+Proof.
+  intros [[ti|?] [to|?]] v H Hw k; try destruct H. cbn [nbport p_push_set fst snd nb_push_set].
+  pose proof (t_push_reply_cmp to v) as Hc.
+  pose proof (t_push_reply_range to v (proj1 Hw SVol I)) as Hr. rewrite t_push_reply_vol in Hr.
+  destruct (t_push to v false) as [t' r]. cbn [fst snd] in *. intros Hv.
+  pose proof (Hc SVol) as Hv0; cbn [cmp] in Hv0. pose proof (Hc (SAdd k)) as Hk; cbn [cmp] in Hk.
+  rewrite Hk. apply (proj2 (wet_part v _ Hw Hr)). rewrite <- Hv0. exact Hv.
+Qed.
